@@ -253,3 +253,23 @@ PLAN["C06"] = {
     ],
     "scope_note": "Kani: complete per size 1..12 for both types.",
 }
+
+
+PLAN["C10"] = {
+    "level": "proof",
+    "technique": "Kani contract triples per exported size N = 0..12: the same operation applied to LutN and to Lut built from the same symbolic well-formed blocks returns the same blocks/components (forwarding faithfulness), conversions are inverse, TryFrom fails exactly on a different variable count, integer conversions are bit-exact; heavy callees compared at reduced sizes (bounded)",
+    "level_text": "For every alias Lut0..Lut12: Lut::from(LutN) and LutN::try_from(Lut) preserve the blocks and are inverse, try_from fails for a Lut of another size, and constructors (all arguments symbolic), value/get_bit/set_bit/unset_bit/set_value, the logic operators, cmp/==, flip/swap/swap_adjacent/cofactors/from_cofactors/top_decomposition/unateness (symbolic indices, N <= 8) and the first items of all_functions agree between the two types; u8/u16/u32/u64 <-> Lut3..Lut6 are bit-exact bijections with bit m = f(m). Complete per size. Canonization agreement is bounded to N <= 2 (3 in thorough).",
+    "level_note": "Trusted: Kani/CBMC, rustc. For N >= 9 the per-index agreement of the transforms/decomposition follows from C03/C06 (both types are proved equal to the same specification for every index). Strings (to_hex_string/Display/from_hex_string) are compared under C09's bounded triples; bdd_complexity is not compared (C07 not applicable).",
+    "kani_units": ["spec_ops.rs", "c10_agree.rs"],
+    "kani_filters": {"quick": ["c10q_"], "thorough": ["c10t_"]},
+    "kani_scope": {r"canon": "bounded(canonization agreement at this tiny size only)", r".*": "complete(fixed N: all tables, all in-range arguments)"},
+    "harness_timeout": {"quick": 900, "thorough": 3600},
+    "functions": ["From<StaticLut<N,T>> for Lut", "TryFrom<Lut> for StaticLut<N,T>", "From<u8/u16/u32/u64> for Lut3..6 and back",
+                  "every public method common to Lut and StaticLut except strings and bdd_complexity (see level_note)"],
+    "assumptions": [
+        "canonization agreement bounded to N <= 2 (quick) / 3 (thorough); both types call the same canonization functions with (N, table, perm)",
+        "string forms: C09; bdd_complexity: not compared",
+        "transform/decomposition agreement for N >= 9 rests on C03/C06 per-index triples of both types",
+    ],
+    "scope_note": "Kani: complete per size N = 0..12; symbolic indices for N <= 8.",
+}
